@@ -900,6 +900,9 @@ class Folder:
         for c in self.repo.mro(ci):
             if name in c.methods:
                 return c, c.methods[name]
+            al = c.assigns.get(name)
+            if isinstance(al, ast.Name) and al.id in c.methods and name not in c.annots:
+                return c, c.methods[al.id]          # `__radd__ = __add__` in the class body: another name of the same function
         return None, None
 
     def _attr(self, obj, name):
